@@ -15,7 +15,7 @@ import (
 func c13Opts(r *mon.RNG, i int) *gram.GenOpts {
 	prof := []int{gram.ProfStateful, gram.ProfDefault, gram.ProfLower}[i%3]
 	return &gram.GenOpts{Profile: prof, MaxProds: 5, Budget: 14 + r.Intn(14) + (i/90)*6, Depth: 2 + r.Intn(3) + i/150, TokKinds: i%4 == 0, Unions: true,
-		SharePrefix: 8, CaptureBias: 5, SubBias: 4, AllowBang: true, NoNegLook: true}
+		SharePrefix: 8, CaptureBias: 5, SubBias: 4 + 3*(i%2), AllowBang: true, NoNegLook: true, MoreUnions: i%2 == 1, CatchAll: 5}
 }
 
 func c13Child(c *mon.Child) {
